@@ -16,7 +16,7 @@
 #include <string.h>
 #include <stdarg.h>
 
-#define RSV_NCLS 40
+#define RSV_NCLS 56
 
 enum rsv_verdict {
 	RSV_PASS = 0,
